@@ -137,6 +137,9 @@ impl RFault {
 }
 
 pub const RFAULT_MSG: &str = "injected read fault";
+/// A finished reader polled more often than this is a runaway consumer.
+pub const RUNAWAY_POLLS: usize = 200_000;
+pub const RUNAWAY_MSG: &str = "runaway consumer";
 
 pub struct CutReader<'a> {
     data: &'a [u8],
@@ -144,9 +147,12 @@ pub struct CutReader<'a> {
     chunking: Chunking,
     fault: RFault,
     once_done: bool,
+    polls_after_end: usize,
     pub stats: Rc<RefCell<ReadStats>>,
     /// number of read calls that returned >= 1 byte
     pub data_calls: Rc<RefCell<usize>>,
+    /// bytes handed out when the fault fired for the first time
+    pub fired_at: Rc<RefCell<Option<usize>>>,
 }
 
 impl<'a> CutReader<'a> {
@@ -157,8 +163,10 @@ impl<'a> CutReader<'a> {
             chunking,
             fault,
             once_done: false,
+            polls_after_end: 0,
             stats: Default::default(),
             data_calls: Default::default(),
+            fired_at: Default::default(),
         }
     }
     pub fn plain(data: &'a [u8], chunking: Chunking) -> Self {
@@ -167,8 +175,19 @@ impl<'a> CutReader<'a> {
     pub fn stats_handle(&self) -> Rc<RefCell<ReadStats>> {
         self.stats.clone()
     }
+    /// Byte position beyond which a sticky fault lets nothing through.
+    fn fault_limit(&self) -> usize {
+        match self.fault {
+            RFault::ErrAfterBytes(k) | RFault::EofAfterBytes(k) => k,
+            RFault::ErrOnCall(_) => 0,
+            _ => usize::MAX,
+        }
+    }
     pub fn data_calls_handle(&self) -> Rc<RefCell<usize>> {
         self.data_calls.clone()
+    }
+    pub fn fired_at_handle(&self) -> Rc<RefCell<Option<usize>>> {
+        self.fired_at.clone()
     }
 }
 
@@ -179,6 +198,9 @@ impl Read for CutReader<'_> {
         st.calls += 1;
         if st.fault_fired {
             st.calls_after_fault += 1;
+            if st.calls_after_fault > RUNAWAY_POLLS && self.pos >= self.data.len().min(self.fault_limit()) {
+                panic!("{RUNAWAY_MSG}: {} reads after the injected fault at byte {}", st.calls_after_fault, self.pos);
+            }
         }
         if buf.is_empty() {
             return Ok(0);
@@ -187,16 +209,19 @@ impl Read for CutReader<'_> {
         match self.fault {
             RFault::ErrOnCall(k) if call >= k => {
                 st.fault_fired = true;
+                self.fired_at.borrow_mut().get_or_insert(self.pos);
                 return Err(io::Error::other(RFAULT_MSG));
             }
             RFault::ErrOnceOnCall(k) if call == k && !self.once_done => {
                 self.once_done = true;
                 st.fault_fired = true;
+                self.fired_at.borrow_mut().get_or_insert(self.pos);
                 return Err(io::Error::other(RFAULT_MSG));
             }
             RFault::ErrAfterBytes(k) => {
                 if self.pos >= k {
                     st.fault_fired = true;
+                self.fired_at.borrow_mut().get_or_insert(self.pos);
                     return Err(io::Error::other(RFAULT_MSG));
                 }
                 limit = limit.min(k);
@@ -205,6 +230,7 @@ impl Read for CutReader<'_> {
                 if self.pos >= k {
                     self.once_done = true;
                     st.fault_fired = true;
+                self.fired_at.borrow_mut().get_or_insert(self.pos);
                     return Err(io::Error::other(RFAULT_MSG));
                 }
                 limit = limit.min(k);
@@ -213,12 +239,20 @@ impl Read for CutReader<'_> {
                 limit = limit.min(k);
                 if self.pos >= limit && k < self.data.len() {
                     st.fault_fired = true;
+                self.fired_at.borrow_mut().get_or_insert(self.pos);
                 }
             }
             _ => {}
         }
         if self.pos >= limit {
             st.eof_seen = true;
+            self.polls_after_end += 1;
+            if self.polls_after_end > RUNAWAY_POLLS {
+                // A consumer that keeps polling a finished reader forever would hang the
+                // harness (and usually grows a buffer without bound); turn it into a panic
+                // that the caller's `catch` reports.
+                panic!("{RUNAWAY_MSG}: {} reads after end of input at byte {}", self.polls_after_end, self.pos);
+            }
             return Ok(0);
         }
         let stop = self.chunking.next_cut(self.pos, self.data.len()).min(limit);
